@@ -92,6 +92,27 @@ def run_case(case, tmp):
                 if id(m) not in seen:
                     seen.add(id(m)); m.version += 1
 
+    class LazyT(Trainer):
+        """a persistent trainer that retrieves further models lazily, inside train()"""
+        def __init__(self):
+            super().__init__()
+            self.pending = []
+            self.got = []
+
+        def train(self):
+            for n in self.pending:
+                try:
+                    self.got.append(self.get_training_model(f"m{n}"))
+                except KeyError:
+                    pass
+            self.pending = []
+            seen = set()
+            for m in self.got:
+                if id(m) not in seen:
+                    seen.add(id(m)); m.version += 1
+
+    lazy = {}
+
     probe = T(list(range(len(flags))))
     probe.attach_training_models(tmd)
     trainer_view = probe.ok
@@ -103,6 +124,12 @@ def run_case(case, tmp):
             t = T(op[1])
             TrainersDict({"t": t}).attach_training_models(tmd)
             t.run()
+        elif op[0] == "runt":
+            if op[1] not in lazy:
+                lazy[op[1]] = LazyT()
+                TrainersDict({"t": lazy[op[1]]}).attach_training_models(tmd)
+            lazy[op[1]].pending = list(op[2])
+            lazy[op[1]].run()
         else:
             # produce a state directory holding the requested versions, then load it
             src = TrainingModelsDict({f"m{i}": VTrain(i, hi, io) for i, (hi, io) in enumerate(flags)})
